@@ -58,7 +58,7 @@ def S(*xs):
 
 def consts(nsrc, rx, conds, vals, sync, maxbars, maxtrig, **kw):
     c = dict(NSrc=nsrc, Reactions=set(rx), Conds=set(conds), TrigValues=set(vals), SyncModes=set(sync),
-             MaxBars=maxbars, MaxTrig=maxtrig, GuardValues=set())
+             MaxBars=maxbars, MaxTrig=maxtrig, GuardValues=set(), Prepare=False)
     c.update(kw)
     return c
 
@@ -69,6 +69,8 @@ def mc_configs(tier):
         ("mc_all", consts(2, ALLRX, [S(1), S(1, 2)], [0, 1, 2], [False, True], 2, 1)),
         # one source, three triggers: order of reports, repeated suspend / release cycles
         ("mc_order", consts(1, ["Noop", "Suspend"], [S(1), S(1, 2), S(2)], [1, 2], [False], 2, 3)),
+        # prepared triggers: the future `trigger(v)` is built, the barrier set changes, then it is polled / dropped
+        ("mc_prep", consts(2, ALLRX, [S(1)], [1], [False], 2, 1, Prepare=True)),
         # cleanup guards: a sync trigger fired from a destructor while the source unwinds
         ("mc_unwind", consts(1, ALLRX, [S(1), S(2)], [1, 2], [False, True], 2, 2, GuardValues={2})),
     ]
@@ -92,6 +94,7 @@ def gen_configs(tier):
         # a cleanup guard triggers while its source unwinds from a call that a Panic barrier (or trigger_noop on a
         # Suspend barrier) panicked: Panic / Noop / Suspend barriers over values 1, 2; guard value 2
         ("gen_unwind", consts(1, ALLRX, [S(1), S(2)], [1, 2], [False, True], 2, 2, MaxOps=4 if tier == "quick" else 5, GuardValues={2})),
+        ("gen_prep", consts(1, ALLRX, [S(1), S(1, 2)], [1, 2], [False], 2, 2, MaxOps=5, Prepare=True)),
         # suspension: two sources on one Suspend/Noop barrier, 7 operations
         ("gen_suspend", consts(2, ["Suspend", "Noop"], [S(1, 2)], [1], [False], 1, 2, MaxOps=8)),
     ]
@@ -126,7 +129,7 @@ def nsrc_of(rc):
 
 
 def trace_consts(nsrc):
-    return consts(nsrc, ALLRX, [], range(0, 8), [False, True], 1000000, 1000000, GuardValues=set(range(0, 8)))
+    return consts(nsrc, ALLRX, [], range(0, 8), [False, True], 1000000, 1000000, GuardValues=set(range(0, 8)), Prepare=True)
 
 
 def validate_trace(path, nsrc, tag, impl=True):
@@ -189,6 +192,8 @@ def run(pid, tier, seed, replay=None):
             need.append(("TriggerNoop", "TriggerNoopAny"))
         if "Panic" in c["Reactions"]:
             need.append(("Panicked", "PanickedAny"))
+        if c["Prepare"]:
+            need += [("PrepareTrigger", "PrepareAny"), ("TriggerPrepared", "PrepareAny"), ("DropPrepared", "PrepareAny")]
         if c["GuardValues"]:
             need += [("UnwindTrigger", "UnwindAny"), ("UnwindReturn", "UnwindAny"), ("UnwindPanicked", "UnwindAny")]
         missing = [a for a in need if r.coverage and not any(r.coverage.get(x, 0) > 0 for x in a)]
